@@ -13,7 +13,12 @@ pub mod c11;
 pub mod c13;
 pub mod c14;
 pub mod c18;
+pub mod c19;
+pub mod c19_chain;
+pub mod c19_gen;
+pub mod c19_ops;
+pub mod c19_world;
 
 pub fn all() -> Vec<&'static dyn Check> {
-    vec![&c01::C01, &c03::C03, &c04::C04, &c05::C05, &c06::C06, &c07::C07, &c08::C08, &c09::C09, &c10::C10, &c11::C11, &c13::C13, &c14::C14, &c18::C18]
+    vec![&c01::C01, &c03::C03, &c04::C04, &c05::C05, &c06::C06, &c07::C07, &c08::C08, &c09::C09, &c10::C10, &c11::C11, &c13::C13, &c14::C14, &c18::C18, &c19::C19]
 }
